@@ -235,4 +235,23 @@ def rule_readiness(ctx):
                           loc=s.loc(), path=fmt_path(b, p))
 
 
-RULES = [rule_single_write_scope, rule_single_read_scope, rule_write_private, rule_readiness]
+def rule_json_delta_gate(ctx):
+    """/json-delta: a delta, a reset and the 200 answer to HEAD are produced only for an active history."""
+    from lib.rules import G, AnyG
+    b = ctx.body('http::delta::handle_get_or_head')
+    gate = AnyG('history is active', [G('is_active', call='PayloadHistory::is_active', labels={'true'}),
+                                      G('current is Some', call='PayloadHistory::current', labels={'Some', 'pass'})])
+    e, sw = gate.edges(b)
+    ctx.floor('K1', 'readiness test in the /json-delta handler', len(sw), 1)
+    sinks = b.calls(['http::delta::handle_delta', 'http::delta::handle_reset', 'http::response::ResponseBuilder::ok'])
+    ctx.floor('K1', 'success responses of the /json-delta handler', len(sinks), 3)
+    for s_ in sinks:
+        pth = b.path_avoiding(s_.bb, avoid_edges=e)
+        ctx.check(bool(e) and pth is None, 'K1', 'json-delta:%s<=history-active' % s_.callee.split('::')[-1],
+                  '%s is reachable only once a validated data set exists' % s_.callee.split('::')[-1],
+                  'the /json-delta handler can answer with %s before the first validation has completed: a client gets an (empty) '
+                  'change set or a 200 for data that does not exist yet, tagged with the initial serial' % s_.callee.split('::')[-1],
+                  loc=s_.loc(), path=fmt_path(b, pth))
+
+
+RULES = [rule_json_delta_gate, rule_single_write_scope, rule_single_read_scope, rule_write_private, rule_readiness]
